@@ -91,8 +91,8 @@ fn type_of_key(key: &str, types: &[u8; 26]) -> Option<u8> {
 impl Prop for C06 {
     fn cases(&self, tier: Tier) -> u64 {
         match tier {
-            Tier::Quick => 15_000,
-            Tier::Thorough => 1_500_000,
+            Tier::Quick => 60_000,
+            Tier::Thorough => 3_000_000,
         }
     }
 
